@@ -3,5 +3,5 @@ EXTENDS BDDSpec
 N2 == <<"a", "b">>
 N3 == <<"a", "b", "c">>
 OpsActions == {"var", "ite", "apply", "drop", "gc", "swap"}
-LetActions == {"var", "apply", "quantify", "cofactor", "compose", "vcompose", "rename", "drop", "gc", "swap"}
+LetActions == {"var", "apply", "quantify", "cofactor", "compose", "vcompose", "rename", "cube", "drop", "gc", "swap"}
 ====
